@@ -562,3 +562,5 @@ RULES.append(("C02.INIT", "both state representations start identically: empty, 
 
 RULES.append(("C02.REFARM", "the reference the levels are compared with: six arms of execute_one equal the language table (shared with C01.ARM)", p_c01.rule_arms))
 RULES.append(("C02.REFJUMP", "the reference the levels are compared with: area, label and ♡ rules of execute_one (shared with C01.JUMP)", p_c01.rule_area_jump))
+
+RULES.append(("C02.STATEAPI", "the accessors of the state (selected stack, jump source, label table, command log) read and write exactly their field (shared with C01.STATEAPI)", p_c01.rule_stateapi))
